@@ -58,6 +58,17 @@ check("C19", "proof",
       "present/absent on a missing key).",
       "exhaustive finite-table obligations decided by the library's own parser/evaluator + bounded stand-ins "
       "(contract-based deduction is not applicable to the replace_all/regex decode chain: see DESIGN.md)", "DESIGN.md 4/C19")
+check("C20", "proof",
+      "main() and process_json_doc() are executed symbolically from their AST with Environment/Runner, json.loads and "
+      "stdin abstracted by contracts: every path's status and output log is checked against the status table (-n: "
+      "0 with the JSON of the value; -n -b: 0/1/2; syntax error: 1 with a located message; per document 0/1/3, error -> "
+      "null). The NDJSON loop is proved for streams of unknown length with the invariant `summary == max of the statuses so "
+      "far`, havocking the shared activation, with the frame obligation that evaluation k sees document k and the --arg "
+      "bindings only.",
+      "Runner.evaluate returns a value or raises CELEvalError (C04) and is a function of its bindings (C05); argparse is "
+      "abstracted by the Namespace it returns; json.dumps/print are logged, not interpreted; plus a bounded end-to-end "
+      "stand-in of the real main() on concrete streams.",
+      "contract-based deductive verification: symbolic execution with collaborator contracts + loop invariant", "DESIGN.md 4/C20")
 _pending = "contracts for this property are not built yet in this revision (work in progress, see DESIGN.md section 8 build order)"
-for _p in ["C03","C04","C05","C06","C07","C09","C10","C11","C12","C14","C15","C16","C17","C20"]:
+for _p in ["C03","C04","C05","C06","C07","C09","C10","C11","C12","C14","C15","C16","C17"]:
     NA[_p] = _pending
